@@ -45,7 +45,9 @@ def make_client(peername=("127.0.0.1", 51234), sockname=("127.0.0.1", 8080), **k
 
 
 class Driver:
-    def __init__(self, top_layer: layer.Layer, hook_policy=None, open_policy=None, max_steps=20000):
+    def __init__(self, top_layer: layer.Layer, hook_policy=None, open_policy=None, max_steps=20000, hold_hooks=None):
+        self.hold_hooks = hold_hooks  # callable(hook_cmd) -> bool: keep this blocking hook pending until release()
+        self.held = collections.deque()
         self.layer = top_layer
         self.hook_policy = hook_policy  # callable(hook_cmd) -> None, may mutate the flow (addon behaviour)
         self.open_policy = open_policy  # callable(open_cmd) -> error string or None
@@ -93,7 +95,10 @@ class Driver:
             if self.hook_policy is not None:
                 self.hook_policy(cmd)
             if cmd.blocking:
-                self.pending.append(events.HookCompleted(cmd))
+                if self.hold_hooks is not None and self.hold_hooks(cmd):
+                    self.held.append(cmd)
+                else:
+                    self.pending.append(events.HookCompleted(cmd))
         elif isinstance(cmd, commands.OpenConnection):
             err = self.open_policy(cmd) if self.open_policy is not None else None
             if err is None:
@@ -119,6 +124,13 @@ class Driver:
             # protocol-specific commands (e.g. GetSocket, QUIC) are recorded only
             if getattr(cmd, "blocking", False):
                 raise RuntimeError(f"unhandled blocking command {cmd!r}")
+
+    def release(self):
+        """complete the oldest hook that is being held (a slow async addon finishes / the user resumes an intercepted flow)"""
+        if self.held:
+            self.feed(events.HookCompleted(self.held.popleft()))
+            return True
+        return False
 
     def hook_names(self):
         return [n for n, _ in self.hooks]
